@@ -1647,11 +1647,6 @@ static Node *stmt(Token **rest, Token *tok) {
 
     enter_scope();
 
-    char *brk = brk_label;
-    char *cont = cont_label;
-    brk_label = node->brk_label = new_unique_name();
-    cont_label = node->cont_label = new_unique_name();
-
     if (is_typename(tok)) {
       Type *basety = declspec(&tok, tok, NULL);
       node->init = declaration(&tok, tok, basety, NULL);
@@ -1666,6 +1661,14 @@ static Node *stmt(Token **rest, Token *tok) {
     if (!equal(tok, ")"))
       node->inc = expr(&tok, tok);
     tok = skip(tok, ")");
+
+    // Only the body belongs to this loop: a break or continue in the
+    // header (in a statement expression) refers to the enclosing loop
+    // or switch, as it does for "while" and "do".
+    char *brk = brk_label;
+    char *cont = cont_label;
+    brk_label = node->brk_label = new_unique_name();
+    cont_label = node->cont_label = new_unique_name();
 
     node->then = stmt(rest, tok);
 
